@@ -80,6 +80,27 @@ def ev_call(self, e, st):
             s = st.fork()
             yield s, self.alloc(s, "opaque")       # an empty fresh container whose content is not modelled
             return
+        if name == "dict" and len(e.args) == 1 and not e.keywords:
+            # dict(d): a fresh dictionary with the same keys (same order) and entries
+            for st1, v in self.ev(e.args[0], st):
+                if isinstance(v, Raise):
+                    yield st1, v
+                    continue
+                if not (is_ref(v.ty) and v.ty[1].startswith("dict_")):
+                    raise Unsupported(f"dict() of {v.ty}")
+                cls = v.ty[1]
+                s = st1.fork()
+                ks = self.read_field(s, v, cls, "keys")
+                mp = self.read_field(s, v, cls, "map")
+                d = self.alloc(s, cls)
+                saved, self.spec_mode = self.spec_mode, 1
+                try:
+                    self.write_field(s, d, cls, "keys", ks, line)
+                    self.write_field(s, d, cls, "map", mp, line)
+                finally:
+                    self.spec_mode = saved
+                yield s, d
+            return
         yield from builtin_call(self, name, e, st)
         return
     # ---------------- attribute calls
@@ -121,6 +142,32 @@ def ev_call(self, e, st):
                 m = fresh_const("match", I)
                 s2 = st1.assume(z3.And(m >= 0, (m != 0) == found))
                 yield s2, Val(m, ("ref", "opaque"))
+            return
+        if isinstance(f.value, ast.Call) and isinstance(f.value.func, ast.Name) and f.value.func.id == "super":
+            # super().m(...) / super(C, self).m(...): the method of the first base class (single inheritance in the model) that defines it, inlined
+            sa = f.value.args
+            if sa and not (len(sa) == 2 and isinstance(sa[1], ast.Name) and sa[1].id == "self"):
+                raise Unsupported("super() with unusual arguments")
+            cls_here = sa[0].id if sa else self.f.key.split(":")[1].split(".")[0]
+            recv = st.env.get("self")
+            if recv is None or cls_here not in models.CLASSES:
+                raise Unsupported("super() outside a modelled class")
+            fs_b = None
+            todo = list(models.CLASSES[cls_here]["bases"])
+            while todo and fs_b is None:
+                b = todo.pop(0)
+                bmod, bcls = models.CLASSES[b]["src"]
+                try:
+                    fs_b = source.find_function(f"{bmod}:{bcls}.{f.attr}")
+                except (KeyError, FileNotFoundError):
+                    todo.extend(models.CLASSES[b]["bases"])
+            if fs_b is None:
+                raise Unsupported(f"super().{f.attr}: no modelled base class defines it")
+            for st2, vals, kw in ev_args(self, e, st):
+                if isinstance(vals, Raise):
+                    yield st2, vals
+                    continue
+                yield from inline_function(self, st2, fs_b, [recv] + vals, kw, e)
             return
         for st1, base in self.ev(f.value, st):
             if isinstance(base, Raise):
